@@ -292,6 +292,9 @@ def trace_validation(ctx, rekey, quick):
 
 def main(ctx):
     from harness.drivers import rekey, transport as T
+    if ctx.replay_path:
+        from checks import replay_mine
+        return replay_mine.c11(ctx)
     quick = ctx.tier == 'quick'
     # ---- 1. design check ----
     for tc, ts in ((1, 0), (0, 1), (1, 1), (2, 1)):
